@@ -198,6 +198,9 @@ def check_repo(ctx, rng, nqueries):
                               % (base, remote, cwd_rel, paths, len(got), [[len(x) if x != 'missing' else x for x in p] for p in got][:4], len(exp_pairs),
                                  [[e['status'], '/'.join(e['b'])] for e in entries if e['a'][-1].endswith('.ipynb') and e['b'][-1].endswith('.ipynb')][:4]),
                               dict(data, kind_='wrong-pairs', got=out['pairs'], want=exp_pairs))
+            moved = [d for d in out.get('cwd_during', []) if os.path.realpath(d) != os.path.realpath(out['cwd_before'])]
+            if moved:
+                ctx.violation('working directory is %s instead of %s while the caller consumes the changed notebooks' % (moved[0], out['cwd_before']), dict(data, kind_='cwd-moved-during'))
             if os.path.realpath(out['cwd_after']) != os.path.realpath(out['cwd_before']):
                 ctx.violation('working directory changed from %s to %s' % (out['cwd_before'], out['cwd_after']), dict(data, kind_='cwd-moved'))
             # model on the same entry list
